@@ -31,7 +31,8 @@ func vfSvc(ctor string, args ...any) input.Service {
 // vfMenu: configurations with one defect class each (and one with two).
 //
 //	0 valid, 1 grammar defect, 2 missing parameter, 3 missing service,
-//	4 dependency cycle, 5 shared-on-contextual, 6 missing parameter + service
+//	4 dependency cycle, 5 shared-on-contextual, 6 missing parameter + service,
+//	7 cycle + missing service + missing parameter, 8 scope + missing references in a decorator
 func vfMenu(k int) input.Input {
 	shared, contextual := input.ScopeShared, input.ScopeContextual
 	switch k {
@@ -49,6 +50,13 @@ func vfMenu(k int) input.Input {
 		return input.Input{Services: map[string]input.Service{"a": a, "b": b}}
 	case 6:
 		return input.Input{Services: map[string]input.Service{"svc": vfSvc("NewX", "%nope%", "@nope")}}
+	case 7: // a cycle together with a missing service and a missing parameter
+		return input.Input{Services: map[string]input.Service{"a": vfSvc("NewA", "@b", "@nope"), "b": vfSvc("NewB", "@a", "%nope%")}}
+	case 8: // shared-on-contextual together with a missing service in a decorator
+		a, b := vfSvc("NewA", "@b"), vfSvc("NewB")
+		a.Scope, b.Scope = &shared, &contextual
+		a.Tags = []input.Tag{{Name: "t"}}
+		return input.Input{Services: map[string]input.Service{"a": a, "b": b}, Decorators: []input.Decorator{{Tag: "t", Decorator: "D", Args: []any{"@nope", "%nope%"}}}}
 	}
 	return input.Input{Services: map[string]input.Service{"svc": vfSvc("NewX")}, Params: map[string]any{"p": 1}}
 }
@@ -107,7 +115,7 @@ func vfRunBuild(sc vfScenario, quiet, stub, ignoreParams, ignoreServices bool) v
 // kind of fault switched by a symbolic bit, and a configuration from the menu.
 func vfScenarioChoice() vfScenario {
 	sc := vfScenario{readErr: map[string]bool{}, yamlErr: map[string]bool{}, inputs: map[string]input.Input{}}
-	sc.menu = vfChoice("menu", 7)
+	sc.menu = vfChoice("menu", 9)
 	sc.inputs["a.yaml"] = vfMenu(sc.menu)
 	sc.inputs["b.yaml"] = input.Input{Params: map[string]any{"q": "x"}}
 	switch vfChoice("layout", 5) {
@@ -237,7 +245,7 @@ func VF_C10_quiet() {
 // VF_C16_flags: an ignore flag removes exactly the diagnostics of its class.
 func VF_C16_flags() {
 	sc := vfScenario{patterns: []string{"P0"}, globErr: []bool{false}, globFiles: [][]string{{"a.yaml"}},
-		readErr: map[string]bool{}, yamlErr: map[string]bool{}, inputs: map[string]input.Input{"a.yaml": vfMenu(vfChoice("menu", 7))}}
+		readErr: map[string]bool{}, yamlErr: map[string]bool{}, inputs: map[string]input.Input{"a.yaml": vfMenu(vfChoice("menu", 9))}}
 	ip, is := vfBool("ignoreParams"), vfBool("ignoreServices")
 	base := vfRunBuild(sc, false, false, false, false)
 	got := vfRunBuild(sc, false, false, ip, is)
